@@ -38,7 +38,7 @@ def modules():
     return m
 
 
-def prepare(repo, tag, append_to=None):
+def prepare(repo, tag, append_to=None, harnesses=None):
     """Copy the working tree (src, Cargo.toml, Cargo.lock) and append harness modules."""
     dst = os.path.join(SCRATCH_ROOT, 'kani-' + tag)
     if os.path.exists(dst):
@@ -51,12 +51,23 @@ def prepare(repo, tag, append_to=None):
             shutil.copy(p, dst)
     os.makedirs(os.path.join(dst, '.cargo'), exist_ok=True)
     open(os.path.join(dst, '.cargo', 'config.toml'), 'w').write('[net]\noffline = true\n')
+    needed = None
+    if harnesses:
+        # only the harness modules that define a requested harness are compiled in (a broken module of another
+        # unit must not take this one down)
+        needed = {'support.rs'}
+        for h in harnesses:
+            m = module_of(h)
+            if m:
+                needed.add(m)
     for src, mods in modules().items():
         p = os.path.join(dst, src)
         if not os.path.exists(p):
             continue  # file vanished: harnesses needing it will fail to compile => error verdict
         with open(p, 'a') as f:
             for m in mods:
+                if needed is not None and m not in needed:
+                    continue
                 name = 'verif_' + os.path.splitext(m)[0].replace('-', '_')
                 if m == 'support.rs':
                     name = 'verif_support'
@@ -121,7 +132,7 @@ def run_cached(repo, harnesses, tag='default', timeout=900, jobs=4):
 def run(repo, harnesses, tag='default', timeout=900, jobs=4, playback=False, extra_args=None):
     """Run the given harness names (list).  Returns dict name -> result."""
     t0 = time.time()
-    dst = prepare(repo, tag)
+    dst = prepare(repo, tag, None, harnesses)
     env = dict(os.environ)
     env['CARGO_NET_OFFLINE'] = 'true'
     env['CARGO_TARGET_DIR'] = TARGET_DIR
@@ -199,6 +210,9 @@ def run(repo, harnesses, tag='default', timeout=900, jobs=4, playback=False, ext
         verdict = m.group(1) if m else None
         tm = re.search(r'Verification Time: ([0-9.]+)s', txt)
         res = {'checks': nchecks, 'time_s': float(tm.group(1)) if tm else None, 'log': log_path}
+        cm = re.search(r'\*\* (\d+) of (\d+) cover properties satisfied', txt)
+        if cm:
+            res['covers_satisfied'] = int(cm.group(1)); res['covers_total'] = int(cm.group(2))
         if verdict == 'SUCCESSFUL':
             res['status'] = 'ok'
         elif verdict == 'FAILED':
@@ -260,7 +274,7 @@ def replay(repo, harness, playback_test, tag='replay', timeout=600):
     if m is None or not playback_test:
         return False, 'no playback test'
     tm = re.search(r'fn (kani_concrete_playback_\w+)', playback_test)
-    dst = prepare(repo, tag, {m: playback_test})
+    dst = prepare(repo, tag, {m: playback_test}, [harness])
     env = dict(os.environ)
     env['CARGO_NET_OFFLINE'] = 'true'
     env['CARGO_TARGET_DIR'] = TARGET_DIR
